@@ -148,3 +148,52 @@ def syncRun (lvl : K → Nat) (hc : HashCfg K V D) (m : Merge) :
 
 end
 end Mst
+
+/-! ### Schedules with stale in-flight snapshots
+
+A pull is not atomic in a deployment: the receiver computes the ranges from page-range snapshots
+taken at some point (`plan`) and fetches them later, when both stores may have moved on. The
+extended schedule lets the receiver absorb the sender's CURRENT entries inside ARBITRARY ranges
+(`fetchStale`): this subsumes every stale, partial, duplicated or reordered range request. -/
+
+namespace Mst
+variable {K V D : Type}
+
+inductive SyncOp2 (K V : Type) where
+  | write (r : Nat) (k : K) (v : V)
+  | pull (recv send : Nat)
+  /-- regenerate the hashes of a replica's tree (what taking a snapshot does) -/
+  | hash (r : Nat)
+  /-- absorb the sender's current entries inside `ranges` (ranges from any earlier diff, or any others) -/
+  | fetchStale (recv send : Nat) (ranges : List (DR K))
+
+section
+variable [LT K] [LE K] [DecidableLT K] [DecidableLE K] [DecidableEq K] [LT V] [DecidableLT V] [DecidableEq D]
+
+def syncStep2 (lvl : K → Nat) (hc : HashCfg K V D) (m : Merge) (rs : List (Replica K V D)) :
+    SyncOp2 K V → Except String (List (Replica K V D))
+  | .write r k v => syncStep lvl hc m rs (.write r k v)
+  | .pull i j => syncStep lvl hc m rs (.pull i j)
+  | .hash r =>
+    match rs[r]? with
+    | none => .ok rs
+    | some rep => .ok (setAt rs r { rep with tree := rep.tree.genRootHash hc })
+  | .fetchStale i j ranges =>
+    if i = j then .ok rs else
+    match rs[i]?, rs[j]? with
+    | some ri, some rj =>
+      match ri.absorbAll lvl m (fetch rj.store ranges) with
+      | .error e => .error e
+      | .ok ri' => .ok (setAt rs i ri')
+    | _, _ => .ok rs
+
+def syncRun2 (lvl : K → Nat) (hc : HashCfg K V D) (m : Merge) :
+    List (Replica K V D) → List (SyncOp2 K V) → Except String (List (Replica K V D))
+  | rs, [] => .ok rs
+  | rs, op :: ops =>
+    match syncStep2 lvl hc m rs op with
+    | .error e => .error e
+    | .ok rs' => syncRun2 lvl hc m rs' ops
+
+end
+end Mst
